@@ -37,12 +37,16 @@ type c1Gen struct {
 	IgnoreType string `json:"ignoretype,omitempty"`
 	// SkipType: key of another type for which GenerateType returns ErrSkip (SkipErr: skip | wrapskip) AFTER rendering its pieces:
 	// complete declarations that were rendered are in the file
+	// (see c1Case.FailFirst for runs that fail first)
 	SkipType string `json:"skiptype,omitempty"`
 	SkipErr  string `json:"skiperr,omitempty"`
 }
 
 type c1Case struct {
-	Mod modspec.Mod `json:"mod"`
+	// FailFirst: a first Execute fails (the first generator returns an error for its last type, after everything was rendered);
+	// the files are judged after a second Execute on the SAME executor with the generators as specified
+	FailFirst bool        `json:"failfirst,omitempty"`
+	Mod       modspec.Mod `json:"mod"`
 	// Sib: a second module (required through a replace directive) whose package is generated in the same run; it has its own go
 	// directive and module path
 	Sib      *modspec.Mod `json:"sib,omitempty"`
@@ -217,12 +221,51 @@ func genC01(t *rapid.T) c1Case {
 				feats["errskip-after-rendering"] = true
 			}
 		}
+		if rapid.IntRange(0, 5).Draw(t, "blankpkg") == 0 {
+			// for one package the generator renders nothing but white space, and a previous output of it exists there: the file
+			// must hold what was rendered in this run (no declarations), not what an earlier run left
+			pi := rapid.IntRange(0, len(c.Mod.Pkgs)-1).Draw(t, "blankpkgidx")
+			pp := c.Mod.PkgPath(&c.Mod.Pkgs[pi])
+			var keys []string
+			for k := range g.Pieces {
+				if strings.HasPrefix(k, pp+".") && !strings.ContainsAny(k[len(pp)+1:], "/.") {
+					keys = append(keys, k)
+				}
+			}
+			sort.Strings(keys)
+			touched := false
+			for _, k := range keys {
+				touched = touched || k == g.IgnoreType || k == g.SkipType
+			}
+			if len(keys) > 0 && !touched {
+				for i, k := range keys {
+					if i == 0 {
+						g.Pieces[k] = []script.Piece{{Kind: "block", Text: "\n\n \t\n"}}
+					} else {
+						g.Pieces[k] = nil
+					}
+				}
+				has := false
+				for _, o := range c.Mod.Pkgs[pi].Other {
+					has = has || o.Name == "zz_generated."+g.Name+".go"
+				}
+				if !has {
+					c.Mod.Pkgs[pi].Other = append(c.Mod.Pkgs[pi].Other, modspec.File{Name: "zz_generated." + g.Name + ".go",
+						Data: fmt.Sprintf("package %s\n\nvar _previous_%s = 0\n", c.Mod.Pkgs[pi].Name, g.Name)})
+				}
+				feats["white-space-only-rendering-over-a-previous-output"] = true
+			}
+		}
 		if rapid.IntRange(0, 3).Draw(t, "defer") == 0 {
 			gr := &gg{t: t, uniq: fmt.Sprintf("D%d", gi), mlBlock: !c1KnownMLBlock, plain: plain, features: feats}
 			g.DeferPiece = gr.decls("T0", 1)
 			feats["defer-rendered"] = true
 		}
 		c.Gens = append(c.Gens, g)
+	}
+	if rapid.IntRange(0, 5).Draw(t, "failfirst") == 0 {
+		c.FailFirst = true
+		feats["failed-execute-then-a-second-one-on-the-same-executor"] = true
 	}
 	for f := range feats {
 		c.Features = append(c.Features, f)
@@ -423,12 +466,35 @@ func oracleC01(c c1Case) error {
 		entries = append(entries, entry(p.Dir))
 		locs = append(locs, c1Loc{p, c.Mod.PkgPath(p), filepath.Join(dir, filepath.FromSlash(p.Dir)), c.Mod.Go, c.Mod.Path})
 	}
-	res := script.Run(script.RunSpec{Dir: dir, Entrypoints: entries, Globals: globals, Base: "zz_generated", Scripts: c.scripts()})
+	spec := script.RunSpec{Dir: dir, Entrypoints: entries, Globals: globals, Base: "zz_generated", Scripts: c.scripts()}
+	if c.FailFirst {
+		failing := c.scripts()
+		var keys []string
+		for k := range failing[0].PerType {
+			keys = append(keys, k)
+		}
+		sort.Strings(keys)
+		if len(keys) > 0 {
+			a := failing[0].PerType[keys[len(keys)-1]]
+			a.Err = "error"
+			failing[0].PerType[keys[len(keys)-1]] = a
+			spec.Scripts, spec.Retry = failing, c.scripts()
+		}
+	}
+	res := script.Run(spec)
 	if res.LoadErr != "" {
 		panic("harness: synthetic module does not load: " + res.LoadErr)
 	}
 	if res.Panic != "" {
 		return fmt.Errorf("Execute panics: %s", res.Panic)
+	}
+	if len(spec.Retry) > 0 {
+		if !res.Failed || !res.Retried {
+			return fmt.Errorf("the first Execute was to fail (generator %s returns an error for its last type) but returned nil", c.Gens[0].Name)
+		}
+		// from here on the second Execute on the same executor is the run that is judged
+		res.Calls = res.Calls[res.RetryFrom:]
+		res.Failed, res.Err = res.RetryFailed, res.RetryErr
 	}
 	// harness self-check: what was rendered must be parseable Go (otherwise the grammar is wrong, not gengo)
 	rendered := map[[2]string]string{} // (gen, pkgpath) -> bytes in rendering order
